@@ -86,6 +86,14 @@ func init() {
 		Assume: []string{"a non-UTF-8 locale (t.encoder != nil)"},
 	})
 	reg(&PropDef{
+		ID:     "C10",
+		Level:  "other",
+		Custom: []func(*PropRun){c10Discipline},
+		Trusted: []string{"lock discipline implies data-race freedom (standard theorem, assumed; sync.Mutex semantics)",
+			"functions listed as initfuncs run before the screen is shared with another goroutine (stated precondition of Init / constructors)"},
+		Assume: []string{"schedules are not explored: what is decided is lock ownership at every access site on every control-flow path"},
+	})
+	reg(&PropDef{
 		ID:    "C20",
 		Level: "proof",
 		Funcs: []string{"views.(*ViewPort).ValidateViewX", "views.(*ViewPort).ValidateViewY", "views.(*ViewPort).ValidateView",
@@ -231,5 +239,79 @@ func c16Tables(run *PropRun) {
 	run.Extra["table_entries_evaluated_on_real_code"] = n
 	for k := range ev.C.Assumed {
 		run.Assumed[k] = true
+	}
+}
+
+func c10Discipline(run *PropRun) {
+	e := run.Eng
+	for _, tn := range []string{"tScreen", "simscreen"} {
+		lc := e.Specs.LockClasses[tn]
+		if lc == nil {
+			run.Errors = append(run.Errors, "no lockclass for "+tn+" in the contract files")
+			continue
+		}
+		RunDiscipline(run, e, lc)
+	}
+	// hand-written deterministic replays (race detector) for the access sites of the public methods
+	raceBody := func(a, b string) string {
+		return replayTest("tcell", []string{"sync"}, `//verif:race
+	s := &tScreen{}
+	s.fallback = make(map[rune]string)
+	s.acs = make(map[rune]string)
+	s.cells.Resize(10, 4)
+	s.w, s.h = 10, 4
+	s.ti = &terminfoStub
+	s.tty = nil
+	var wg sync.WaitGroup
+	wg.Add(2)
+	go func() { defer wg.Done(); for i := 0; i < 500; i++ { `+a+` } }()
+	go func() { defer wg.Done(); for i := 0; i < 500; i++ { `+b+` } }()
+	wg.Wait()`) + "\nvar terminfoStub = terminfoOf()\n"
+	}
+	_ = raceBody
+	for _, g := range run.Groups {
+		switch {
+		case strings.Contains(g.Name, "(*tScreen).CanDisplay/guarded[fallback]"):
+			g.ReplayGo = replayTest("tcell", []string{"sync"}, `//verif:race
+	s := &tScreen{}
+	s.fallback = make(map[rune]string)
+	s.acs = make(map[rune]string)
+	var wg sync.WaitGroup
+	wg.Add(2)
+	go func() { defer wg.Done(); for i := 0; i < 2000; i++ { s.RegisterRuneFallback(rune(0x2500+i%7), "-") } }()
+	go func() { defer wg.Done(); for i := 0; i < 2000; i++ { s.CanDisplay(rune(0x2500+i%7), true) } }()
+	wg.Wait()`)
+		case strings.Contains(g.Name, "(*tScreen).SetSize/") || strings.Contains(g.Name, "(*tScreen).resize/"):
+			g.ReplayGo = replayTest("tcell", []string{"sync", modPath + "/terminfo"}, `//verif:race
+	s := &tScreen{ti: &terminfo.Terminfo{}, tty: verifTty{}}
+	s.cells.Resize(10, 4)
+	s.buffering = true
+	s.resizeQ = make(chan bool, 1000)
+	var wg sync.WaitGroup
+	wg.Add(2)
+	go func() { defer wg.Done(); for i := 0; i < 500; i++ { s.Lock(); s.cells.Invalidate(); s.Unlock() } }()
+	go func() { defer wg.Done(); for i := 0; i < 500; i++ { s.SetSize(10, 4) } }()
+	wg.Wait()`) + `
+type verifTty struct{}
+
+func (verifTty) Start() error                      { return nil }
+func (verifTty) Stop() error                       { return nil }
+func (verifTty) Drain() error                      { return nil }
+func (verifTty) NotifyResize(cb func())            {}
+func (verifTty) WindowSize() (WindowSize, error)   { return WindowSize{Width: 10, Height: 4}, nil }
+func (verifTty) Read(p []byte) (int, error)        { return 0, nil }
+func (verifTty) Write(p []byte) (int, error)       { return len(p), nil }
+func (verifTty) Close() error                      { return nil }
+`
+		case strings.Contains(g.Name, "(*tScreen).writeString/") || strings.Contains(g.Name, "(*tScreen).TPuts/"):
+			g.ReplayGo = replayTest("tcell", []string{"sync", modPath + "/terminfo"}, `//verif:race
+	s := &tScreen{ti: &terminfo.Terminfo{}}
+	s.buffering = true
+	var wg sync.WaitGroup
+	wg.Add(2)
+	go func() { defer wg.Done(); for i := 0; i < 500; i++ { s.Lock(); s.writeString("x"); s.buf.Reset(); s.Unlock() } }()
+	go func() { defer wg.Done(); for i := 0; i < 500; i++ { s.Beep() } }()
+	wg.Wait()`)
+		}
 	}
 }
